@@ -275,7 +275,9 @@ impl Monitor for C18 {
             "tensor_random" => {
                 let mut rng = Rng::stream(seed, gen, idx);
                 let dims: Vec<usize> = (0..(1 + idx % 4)).map(|_| rng.range(1, 6)).collect();
-                let (lo, hi) = match rng.range(0, 5) {
+                let (lo, hi) = match rng.range(0, 7) {
+                    6 => (-2.0e38f32, 2.0e38f32),
+                    7 => (f32::MIN, f32::MAX),
                     0 => (-1.0f32, 1.0f32),
                     1 => (0.0, 1.0),
                     2 => {
